@@ -13,6 +13,18 @@ A_STD1 = 'A-STD1: AsRef<..>::as_ref of the argument types is a pure view'
 A_MEM = 'A-MEM: side conditions `rows * columns <= usize::MAX` / `length + C + 32 <= usize::MAX` (addressable memory) appear as preconditions'
 
 PROPS = {
+    'C03': {
+        'verus': ['scan', 'pwm_score', 'maxthr'],
+        'kani': [],
+        'native': True,
+        'assumptions': [A_E1, A_T1, A_GA1, A_DENSE, A_STD1,
+                        'A-DISP1..3: contracts of the runtime-dispatched u8 pipeline (see C02)',
+                        'A-F2 (hypothesis cfg.ord_ok): `>=` is a total preorder on {threshold} + {scores of valid positions} (no NaN), `>=` without `>` is symmetric, IEEE `==` implies `>=`',
+                        'A-F4 / C08 in general form (hypothesis cfg.ord_ok): the byte score of a position reaches the byte image of any value its real score reaches (assumed: float rounding of to_discrete / scale)',
+                        'A-ITER1: the std chain into_iter().filter(..).max_by(..) on the buffered hits returns a maximal element among those passing the filter (wrapper buffered_best, body = that chain)',
+                        'S2: by-value `mut self` taken as `&mut self` (Verus lacks `mut self`)'],
+        'explanation': 'Scanner::max (Iterator::max override) on its verbatim body: None iff the pending set (hits not yet consumed) is empty; otherwise a pending position with its exact score that dominates every pending position. Stated over the abstract pending set, hence independent of block size and of the prefix of next() calls.',
+    },
     'C02': {
         'verus': ['scan', 'pwm_score', 'score_u8', 'maxthr'],
         'kani': [],
